@@ -39,7 +39,9 @@ def exec_job(job):
     R0 = R0 * scale
     # callers pass adjacency matrices of many types and layouts; the record keeps the values
     if job.get("dtype") in ("int", "int32", "int16", "uint8", "float32"):
-        R0 = R0.astype({"int": int}.get(job["dtype"], job["dtype"]))
+        Rt = R0.astype({"int": int}.get(job["dtype"], job["dtype"]))
+        if np.array_equal(Rt.astype(float), R0):      # lossless casts only (no negative value as uint8)
+            R0 = Rt
     if job.get("dtype") == "bool" and np.isin(R0, (0, 1)).all():
         R0 = R0.astype(bool)
     if job.get("layout") == "F":
@@ -174,6 +176,15 @@ def rand_input(rng, fn, n=None):
                 return A
             continue
         if two_disjoint_edges(A, und):
+            # "weighted": a quarter of the inputs carry weights of both signs (+-1, or small integers
+            # with exactly opposite values - sums of two weights then cancel)
+            if rng.random() < 0.25:
+                if rng.random() < 0.5:
+                    A = np.sign(A)
+                S = np.array([[rng.choice([-1, 1]) for _ in range(n)] for _ in range(n)])
+                if und:
+                    S = np.triu(S, 1) + np.triu(S, 1).T
+                A = A * S
             return A
     raise RuntimeError("no admissible input drawn for " + fn)
 
